@@ -57,29 +57,345 @@ Proof.
   intros [Ho _]. unfold mic_ortho, mic_ortho_coef, mic1. dall. vunf.
   repeat (apply andb_true_iff in Ho; destruct Ho as [Ho ?]).
   repeat match goal with H : (_ =? _) = true |- _ => apply Z.eqb_eq in H; subst end.
-  apply vec_ext; cbn [fst snd]; ring.
+  apply vec_ext; vunf; ring.
 Qed.
+
+Lemma ortho_min_scalar rn rx ry rz ax by_ cz i j k : is_rounding rn -> 0 < ax -> 0 < by_ -> 0 < cz ->
+  mic1 rn rx ax * mic1 rn rx ax + mic1 rn ry by_ * mic1 rn ry by_ + mic1 rn rz cz * mic1 rn rz cz <=
+  (rx + i * ax) * (rx + i * ax) + (ry + j * by_) * (ry + j * by_) + (rz + k * cz) * (rz + k * cz).
+Proof.
+  intros Hr Ha Hb Hc.
+  pose proof (mic1_min rn rx ax (- i) Hr Ha) as H1.
+  pose proof (mic1_min rn ry by_ (- j) Hr Hb) as H2.
+  pose proof (mic1_min rn rz cz (- k) Hr Hc) as H3.
+  replace (rx - - i * ax) with (rx + i * ax) in H1 by ring.
+  replace (ry - - j * by_) with (ry + j * by_) in H2 by ring.
+  replace (rz - - k * cz) with (rz + k * cz) in H3 by ring.
+  lia.
+Qed.
+
+Ltac bools :=
+  repeat match goal with
+         | H : (_ && _) = true |- _ => apply andb_true_iff in H; destruct H
+         | H : (_ =? _) = true |- _ => apply Z.eqb_eq in H
+         | H : (_ <? _) = true |- _ => apply Z.ltb_lt in H
+         end.
 
 Lemma ortho_minimal rn B r n : is_rounding rn -> ortho_pos B ->
   norm2 (mic_ortho rn B r) <= norm2 (vadd r (comb B n)).
 Proof.
-  intros Hr [Ho Hd]. unfold mic_ortho. dall. vunf.
-  repeat (apply andb_true_iff in Ho; destruct Ho as [Ho ?]).
-  repeat (apply andb_true_iff in Hd; destruct Hd as [Hd ?]).
-  repeat match goal with H : (_ =? _) = true |- _ => apply Z.eqb_eq in H; subst end.
-  repeat match goal with H : (_ <? _) = true |- _ => apply Z.ltb_lt in H end.
-  match goal with |- ?a * ?a + ?b * ?b + ?c * ?c <= _ =>
-    match goal with |- context [?rx + (?i * ?ax + _ + _)] => pose proof (mic1_min rn rx ax (- i) Hr ltac:(assumption)) as H1 end
-  end.
-  match goal with n : (Z * Z * Z)%type |- _ => idtac | _ => idtac end.
-  lazymatch goal with
-  | |- mic1 rn ?rx ?ax * _ + mic1 rn ?ry ?by_ * _ + mic1 rn ?rz ?cz * _ <=
-       (?rx + (?i * ?ax + ?j * 0 + ?k * 0)) * _ + (?ry + (?i * 0 + ?j * ?by_ + ?k * 0)) * _ + _ =>
-      pose proof (mic1_min rn ry by_ (- j) Hr ltac:(assumption)) as H2;
-      pose proof (mic1_min rn rz cz (- k) Hr ltac:(assumption)) as H3;
-      replace (rx + (i * ax + j * 0 + k * 0)) with (rx - - i * ax) by ring;
-      replace (ry + (i * 0 + j * by_ + k * 0)) with (ry - - j * by_) by ring;
-      replace (rz + (i * 0 + j * 0 + k * cz)) with (rz - - k * cz) by ring
-  end.
+  intros Hr [Ho Hd]. unfold mic_ortho. dall. vunf. bools. subst.
+  lazymatch goal with |- _ <= (_ + (?i * _ + ?j * 0 + ?k * 0)) * _ + _ + _ =>
+    etransitivity; [apply (ortho_min_scalar rn _ _ _ _ _ _ i j k); eassumption|] end.
+  apply Z.eq_le_incl. ring.
+Qed.
+
+(* ------------------------------------------------------------------ box reduction *)
+(* coefficients w.r.t. the original box -> coefficients w.r.t. the reduced box *)
+Definition from_orig (m : vec) (n : vec) : vec :=
+  (vx n + vy n * vz m + vz n * (vx m * vz m + vy m), vy n + vz n * vx m, vz n).
+
+Lemma reduce_comb rn B n : comb (reduce rn B) n = comb B (to_orig (reduce_mult rn B) n).
+Proof. unfold reduce, reduce_mult, to_orig. dall. veq. Qed.
+
+Lemma reduce_comb_inv rn B n : comb B n = comb (reduce rn B) (from_orig (reduce_mult rn B) n).
+Proof. unfold reduce, reduce_mult, from_orig. dall. veq. Qed.
+
+(* the reduced box spans the same lattice *)
+Lemma reduce_same_lattice rn B v :
+  (exists n, v = comb B n) <-> (exists n, v = comb (reduce rn B) n).
+Proof.
+  split; intros [n ->].
+  - eexists. apply reduce_comb_inv.
+  - eexists. apply reduce_comb.
+Qed.
+
+Lemma reduce_keeps_shape rn B : lower_tri_pos B ->
+  lower_tri_pos (reduce rn B) /\
+  vx (ba (reduce rn B)) = vx (ba B) /\ vy (bb (reduce rn B)) = vy (bb B) /\ vz (bc (reduce rn B)) = vz (bc B).
+Proof.
+  intros [Hl Hd]. unfold reduce. dall. vunf. bools. subst.
+  repeat split; try lia.
+Qed.
+
+(* after the reduction c_y, c_x and b_x are at most half of b_y, a_x, a_x *)
+Lemma reduce_reduced rn B : is_rounding rn -> lower_tri_pos B ->
+  let B' := reduce rn B in
+  2 * Z.abs (vy (bc B')) <= vy (bb B') /\ 2 * Z.abs (vx (bc B')) <= vx (ba B') /\ 2 * Z.abs (vx (bb B')) <= vx (ba B').
+Proof.
+  intros Hr [Hl Hd]. unfold reduce. dall. vunf. bools. subst.
+  match goal with |- context [rn ?n ?d * _] => idtac end.
+  repeat split.
+  - match goal with |- 2 * Z.abs (?cy - ?m * ?by_ - _ * 0) <= ?by_ - _ * 0 =>
+      pose proof (Hr cy by_ ltac:(lia)) end. lia.
+  - match goal with |- 2 * Z.abs (?c1 - rn ?c1 ?ax * ?ax) <= ?ax => pose proof (Hr c1 ax ltac:(lia)) end. lia.
+  - match goal with |- 2 * Z.abs (?bx - rn ?bx ?ax * ?ax) <= ?ax => pose proof (Hr bx ax ltac:(lia)) end. lia.
+Qed.
+
+(* ------------------------------------------------------------------ the sequential wrap *)
+Lemma wrap_congruent rn B r : wrap rn B r = vadd r (comb B (wrap_coef rn B r)).
+Proof. unfold wrap, wrap_coef. dall. veq. Qed.
+
+Lemma wrap_in_region rn B r : is_rounding rn -> lower_tri_pos B -> in_region B (wrap rn B r).
+Proof.
+  intros Hr [Hl Hd]. unfold wrap. dall. vunf. bools. subst.
+  repeat split.
+  - match goal with |- 2 * Z.abs (?x - rn ?x ?d * ?d) <= ?d => pose proof (Hr x d ltac:(lia)) end. lia.
+  - match goal with |- 2 * Z.abs (?y - rn ?y ?d * ?d - _ * 0) <= ?d => pose proof (Hr y d ltac:(lia)) end. lia.
+  - match goal with |- 2 * Z.abs (?z - rn ?z ?d * ?d - _ * 0 - _ * 0) <= ?d => pose proof (Hr z d ltac:(lia)) end. lia.
+Qed.
+
+Lemma small_multiple k d e1 e2 : 0 < d -> e1 = e2 + k * d -> 2 * Z.abs e1 <= d -> 2 * Z.abs e2 < d -> k = 0.
+Proof.
+  intros Hd E H1 H2. destruct (Z.eq_dec k 0) as [|Hk]; [assumption | exfalso].
+  assert (Hm : d <= Z.abs (k * d)).
+  { rewrite Z.abs_mul, (Z.abs_eq d) by lia. assert (1 <= Z.abs k) by lia. nia. }
   lia.
+Qed.
+
+(* the wrap region is a fundamental domain: two lattice-equivalent points, one in the closed region and
+   one strictly inside, coincide *)
+Lemma region_unique B w1 w2 n : lower_tri_pos B -> in_region B w1 -> strict_region B w2 ->
+  w1 = vadd w2 (comb B n) -> n = vzero.
+Proof.
+  intros [Hl Hd] H1 H2 E. dall. vunf. bools. subst.
+  injection E as Ex Ey Ez.
+  destruct H1 as (H1x & H1y & H1z), H2 as (H2x & H2y & H2z).
+  match type of Ez with _ = _ + (_ * 0 + _ * 0 + ?k * ?cz) =>
+    assert (Hk : k = 0) by (refine (small_multiple k cz _ _ _ _ H1z H2z); [assumption | lia]);
+    rewrite Hk in Ex, Ey |- * end.
+  match type of Ey with _ = _ + (_ * 0 + ?j * ?by_ + 0 * _) =>
+    assert (Hj : j = 0) by (refine (small_multiple j by_ _ _ _ _ H1y H2y); [assumption | lia]);
+    rewrite Hj in Ex |- * end.
+  match type of Ex with _ = _ + (?i * ?ax + 0 * _ + 0 * _) =>
+    assert (Hi : i = 0) by (refine (small_multiple i ax _ _ _ _ H1x H2x); [assumption | lia]);
+    rewrite Hi end.
+  reflexivity.
+Qed.
+
+Lemma wrap_unique B w1 w2 n : lower_tri_pos B -> strict_region B w1 -> strict_region B w2 ->
+  w1 = vadd w2 (comb B n) -> w1 = w2.
+Proof.
+  intros HB H1 H2 E.
+  assert (Hn : n = vzero).
+  { eapply region_unique; [exact HB | | exact H2 | exact E]. unfold strict_region, in_region in *. lia. }
+  subst n. rewrite comb_zero, vadd_zero in E. exact E.
+Qed.
+
+(* every image in the strict region IS the wrapped vector *)
+Lemma wrap_hits_strict rn B r n : is_rounding rn -> lower_tri_pos B ->
+  strict_region B (vadd r (comb B n)) -> wrap rn B r = vadd r (comb B n).
+Proof.
+  intros Hr HB Hs.
+  pose proof (wrap_in_region rn B r Hr HB) as Hin.
+  pose proof (wrap_congruent rn B r) as E.
+  assert (E2 : wrap rn B r = vadd (vadd r (comb B n)) (comb B (vsub (wrap_coef rn B r) n))).
+  { rewrite E. rewrite vadd_assoc, <- comb_add. f_equal. f_equal. generalize (wrap_coef rn B r). intros. dall. veq. }
+  pose proof (region_unique B _ _ _ HB Hin Hs E2) as Hz.
+  rewrite Hz, comb_zero, vadd_zero in E2. exact E2.
+Qed.
+
+(* adding a lattice vector to the separation does not change the wrapped vector, unless it lies on the
+   boundary of the region (= a rounding tie occurred) *)
+Lemma wrap_shift_invariant rn B r t : is_rounding rn -> lower_tri_pos B ->
+  strict_region B (wrap rn B r) -> wrap rn B (vadd r (comb B t)) = wrap rn B r.
+Proof.
+  intros Hr HB Hs.
+  rewrite (wrap_congruent rn B r) in Hs |- *.
+  replace (vadd r (comb B (wrap_coef rn B r)))
+    with (vadd (vadd r (comb B t)) (comb B (vsub (wrap_coef rn B r) t))) in Hs |- *.
+  - apply wrap_hits_strict; assumption.
+  - rewrite vadd_assoc, <- comb_add. f_equal. f_equal. generalize (wrap_coef rn B r). intros. dall. veq.
+Qed.
+
+(* two rounding modes give the same wrapped vector unless a tie occurred *)
+Lemma wrap_mode_indep rn1 rn2 B r : is_rounding rn1 -> is_rounding rn2 -> lower_tri_pos B ->
+  strict_region B (wrap rn1 B r) -> wrap rn2 B r = wrap rn1 B r.
+Proof.
+  intros H1 H2 HB Hs. rewrite (wrap_congruent rn1 B r) in Hs |- *. apply wrap_hits_strict; assumption.
+Qed.
+
+(* ------------------------------------------------------------------ the 27-image search *)
+Lemma fold_last_spec l : forall acc,
+  match fold_left step_last l acc with
+  | None => acc = None /\ l = []
+  | Some c => (In c l \/ acc = Some c) /\
+              (forall c', In c' l -> norm2 (snd c) <= norm2 (snd c')) /\
+              (forall b, acc = Some b -> norm2 (snd c) <= norm2 (snd b))
+  end.
+Proof.
+  induction l as [|x l IH]; intros acc; cbn [fold_left].
+  - destruct acc as [b|]; [|auto]. repeat split; auto.
+    + intros c' [].
+    + intros b' [= <-]. lia.
+  - specialize (IH (step_last acc x)).
+    destruct (fold_left step_last l (step_last acc x)) as [c|].
+    + destruct IH as (Hin & Hall & Hacc). repeat split.
+      * destruct Hin as [Hin|Hin]; [left; right; exact Hin|].
+        unfold step_last in Hin. destruct acc as [b|].
+        -- destruct (norm2 (snd x) <=? norm2 (snd b)); injection Hin as <-; [left; left; reflexivity | right; reflexivity].
+        -- injection Hin as <-. left; left; reflexivity.
+      * intros c' [<-|Hc']; [|apply Hall; exact Hc'].
+        unfold step_last in Hacc. destruct acc as [b|].
+        -- destruct (norm2 (snd x) <=? norm2 (snd b)) eqn:E.
+           ++ apply (Hacc x eq_refl).
+           ++ specialize (Hacc b eq_refl). lia.
+        -- apply (Hacc x eq_refl).
+      * intros b ->. unfold step_last in Hacc.
+        destruct (norm2 (snd x) <=? norm2 (snd b)) eqn:E.
+        -- specialize (Hacc x eq_refl). lia.
+        -- apply (Hacc b eq_refl).
+    + destruct IH as [IH _]. unfold step_last in IH. destruct acc as [b|]; [|discriminate].
+      destruct (norm2 (snd x) <=? norm2 (snd b)); discriminate.
+Qed.
+
+Lemma argmin_last_spec l x : In x l ->
+  exists c, argmin_last l = Some c /\ In c l /\ forall c', In c' l -> norm2 (snd c) <= norm2 (snd c').
+Proof.
+  intros Hx. unfold argmin_last. pose proof (fold_last_spec l None) as H.
+  destruct (fold_left step_last l None) as [c|].
+  - destruct H as ([Hin|Hin] & Hall & _); [|discriminate]. exists c. auto.
+  - destruct H as [_ ->]. destruct Hx.
+Qed.
+
+Lemma argmin_first_spec l : forall init,
+  let c := argmin_first init l in
+  (In c l \/ c = init) /\ norm2 (snd c) <= norm2 (snd init) /\
+  (forall c', In c' l -> norm2 (snd c) <= norm2 (snd c')).
+Proof.
+  unfold argmin_first. induction l as [|x l IH]; intros init; cbn [fold_left].
+  - repeat split; auto; try lia. intros c' [].
+  - specialize (IH (step_first init x)). destruct IH as (Hin & Hle & Hall).
+    unfold step_first in *. destruct (norm2 (snd x) <? norm2 (snd init)) eqn:E; repeat split.
+    + destruct Hin as [Hin| ->]; [left; right; exact Hin | left; left; reflexivity].
+    + lia.
+    + intros c' [<-|Hc']; [exact Hle | apply Hall; exact Hc'].
+    + destruct Hin as [Hin| ->]; [left; right; exact Hin | right; reflexivity].
+    + exact Hle.
+    + intros c' [<-|Hc']; [lia | apply Hall; exact Hc'].
+Qed.
+
+Lemma in_offsets27 o : In o offsets27 <->
+  (vx o = -1 \/ vx o = 0 \/ vx o = 1) /\ (vy o = -1 \/ vy o = 0 \/ vy o = 1) /\ (vz o = -1 \/ vz o = 0 \/ vz o = 1).
+Proof.
+  destruct o as [[x y] z]. cbn [vx vy vz fst snd]. split.
+  - intros H. cbv in H. repeat (destruct H as [H|H]; [injection H as <- <- <-; lia|]). destruct H.
+  - intros ([-> | [-> | ->]] & [-> | [-> | ->]] & [-> | [-> | ->]]); cbv; tauto.
+Qed.
+
+Lemma cand_congruent B w o : snd (cand B w o) = vadd w (comb B o).
+Proof. unfold cand. dall. veq. Qed.
+
+Lemma cands_in B w c : In c (cands B w) -> In (fst c) offsets27 /\ snd c = vadd w (comb B (fst c)).
+Proof.
+  unfold cands. rewrite in_map_iff. intros (o & <- & Ho). split; [exact Ho | apply cand_congruent].
+Qed.
+
+Lemma cands_zero B w : In (cand B w vzero) (cands B w) /\ snd (cand B w vzero) = w.
+Proof.
+  split.
+  - unfold cands. apply in_map. apply in_offsets27. cbn. lia.
+  - rewrite cand_congruent, comb_zero, vadd_zero. reflexivity.
+Qed.
+
+(* both searches return one of the 27 candidates and it is no longer than any of them *)
+Lemma search27_last B w :
+  exists c, argmin_last (cands B w) = Some c /\ In c (cands B w) /\
+            forall o, In o offsets27 -> norm2 (snd c) <= norm2 (vadd w (comb B o)).
+Proof.
+  destruct (argmin_last_spec (cands B w) _ (proj1 (cands_zero B w))) as (c & E & Hin & Hall).
+  exists c. repeat split; auto. intros o Ho. rewrite <- cand_congruent. apply Hall.
+  unfold cands. apply in_map. exact Ho.
+Qed.
+
+Lemma search27_first B w :
+  let c := argmin_first (vzero, w) (cands B w) in
+  In (fst c) offsets27 /\ snd c = vadd w (comb B (fst c)) /\
+  forall o, In o offsets27 -> norm2 (snd c) <= norm2 (vadd w (comb B o)).
+Proof.
+  intros c. destruct (argmin_first_spec (cands B w) (vzero, w)) as (Hin & _ & Hall). fold c in Hin, Hall.
+  repeat split.
+  - destruct Hin as [Hin| ->]; [apply (cands_in B w c Hin) | apply in_offsets27; cbn; lia].
+  - destruct Hin as [Hin| ->]; [apply (cands_in B w c Hin) |]. cbn [fst snd]. rewrite comb_zero, vadd_zero. reflexivity.
+  - intros o Ho. rewrite <- cand_congruent. apply Hall. unfold cands. apply in_map. exact Ho.
+Qed.
+
+(* ------------------------------------------------------------------ the triclinic kernel *)
+(* uniform view of the two variants: offset in the 27 candidates, congruent, minimal among the 27 *)
+Definition tric_result (rn : Z -> Z -> Z) (B : box) (r : vec) (c : vec * vec) : Prop :=
+  let B' := reduce rn B in let w := wrap rn B' r in
+  In (fst c) offsets27 /\ snd c = vadd w (comb B' (fst c)) /\
+  forall o, In o offsets27 -> norm2 (snd c) <= norm2 (vadd w (comb B' o)).
+
+Lemma tric_last_result rn B r : tric_result rn B r (tric_last rn B r).
+Proof.
+  unfold tric_result, tric_last. cbv zeta.
+  destruct (search27_last (reduce rn B) (wrap rn (reduce rn B) r)) as (c & -> & Hin & Hall).
+  destruct (cands_in _ _ _ Hin). auto.
+Qed.
+
+Lemma tric_first_result rn B r : tric_result rn B r (tric_first rn B r).
+Proof. unfold tric_result, tric_first. cbv zeta. apply search27_first. Qed.
+
+Lemma tric_congruent_gen rn B r c : tric_result rn B r c ->
+  snd c = vadd r (comb B (tric_coef rn B r (fst c))).
+Proof.
+  intros (_ & E & _). cbv zeta in E. rewrite E. unfold tric_coef.
+  rewrite <- reduce_comb, comb_add, <- vadd_assoc, <- wrap_congruent. reflexivity.
+Qed.
+
+(* the result is an image, hence never shorter than the shortest image *)
+Lemma tric_never_below_gen rn B r c m : tric_result rn B r c ->
+  (forall n, m <= norm2 (vadd r (comb B n))) -> m <= norm2 (snd c).
+Proof. intros H Hm. rewrite (tric_congruent_gen rn B r c H). apply Hm. Qed.
+
+(* cell widths never exceed the diagonal entries (compared as squares, times positive factors) *)
+Lemma width_le_diag B : lower_tri_pos B ->
+  vol B = vx (ba B) * vy (bb B) * vz (bc B) /\
+  vol B * vol B <= (vx (ba B) * vx (ba B)) * norm2 (cross (bb B) (bc B)) /\
+  vol B * vol B <= (vy (bb B) * vy (bb B)) * norm2 (cross (bc B) (ba B)) /\
+  vol B * vol B = (vz (bc B) * vz (bc B)) * norm2 (cross (ba B) (bb B)).
+Proof.
+  intros [Hl Hd]. unfold vol. dall. vunf. bools. subst. repeat split; try ring.
+  - match goal with |- _ <= ?a * ?a * (?p * ?p + ?q * ?q + ?s * ?s) =>
+      pose proof (Z.square_nonneg (a * q)); pose proof (Z.square_nonneg (a * s)) end. nia.
+  - match goal with |- _ <= ?a * ?a * (?p * ?p + ?q * ?q + ?s * ?s) =>
+      pose proof (Z.square_nonneg (a * p)); pose proof (Z.square_nonneg (a * s)) end. nia.
+Qed.
+
+Lemma norm2_ge_comp v : vx v * vx v <= norm2 v /\ vy v * vy v <= norm2 v /\ vz v * vz v <= norm2 v.
+Proof.
+  dall. vunf.
+  match goal with |- ?x * ?x <= _ /\ ?y * ?y <= _ /\ ?z * ?z <= _ =>
+    pose proof (Z.square_nonneg x); pose proof (Z.square_nonneg y); pose proof (Z.square_nonneg z) end. lia.
+Qed.
+
+Lemma scaled_lt (x n a P Q : Z) : 0 < a -> 0 < P -> x * x <= n -> P <= Q -> 4 * n * Q < a * a * P -> 2 * Z.abs x < a.
+Proof.
+  intros Ha HP Hx HPQ H. apply sq_lt_abs; [assumption|].
+  assert (0 <= n) by (pose proof (Z.square_nonneg x); lia).
+  assert (4 * (x * x) * P < a * a * P) by nia.
+  nia.
+Qed.
+
+(* a vector shorter than half of every cell width lies strictly inside the wrap region *)
+Lemma half_width_strict B v : lower_tri_pos B -> below_half_widths B v -> strict_region B v.
+Proof.
+  intros HB (H1 & H2 & H3). destruct (width_le_diag B HB) as (Hv & _).
+  destruct (norm2_ge_comp v) as (Nx & Ny & Nz).
+  destruct HB as [Hl Hd]. unfold vol in *. dall. vunf. bools. subst.
+  match goal with Ha : 0 < ?ax, Hb : 0 < ?by_, Hc : 0 < ?cz |- 2 * Z.abs ?x < ?ax /\ 2 * Z.abs ?y < ?by_ /\ 2 * Z.abs ?z < ?cz =>
+    set (n := x * x + y * y + z * z) in *;
+    assert (0 < by_ * cz) by nia; assert (0 < ax * cz) by nia; assert (0 < ax * by_) by nia;
+    repeat split
+  end.
+  - match goal with |- 2 * Z.abs ?x < ?ax => match type of H1 with 4 * n * ?Q < _ =>
+      match goal with Hb : 0 < ?by_, Hc : 0 < ?cz |- _ =>
+        apply (scaled_lt x n ax ((by_ * cz) * (by_ * cz)) Q); try assumption; try nia end end end.
+  - match goal with |- 2 * Z.abs ?y < ?by_ => match type of H2 with 4 * n * ?Q < _ =>
+      match goal with Ha : 0 < ?ax, Hc : 0 < ?cz |- _ =>
+        apply (scaled_lt y n by_ ((ax * cz) * (ax * cz)) Q); try assumption; try nia end end end.
+  - match goal with |- 2 * Z.abs ?z < ?cz => match type of H3 with 4 * n * ?Q < _ =>
+      match goal with Ha : 0 < ?ax, Hb : 0 < ?by_ |- _ =>
+        apply (scaled_lt z n cz ((ax * by_) * (ax * by_)) Q); try assumption; try nia end end end.
 Qed.
